@@ -2046,3 +2046,317 @@ Definition content_sig (c : option content) :=
                     (map bits_of_f64 (c_count c), map bits_of_f64 (c_sum c), map bits_of_f64 (c_min c), map bits_of_f64 (c_max c)))
   | None => None
   end.
+(* ================================================================== *)
+(* 13. G4 for the dense store: both layouts of DenseStore.Encode       *)
+(* ================================================================== *)
+Definition dense_cells (d : dense) : list (Z * W) :=
+  map (fun i => (i, at_ (Dense.bins d) (i - offset d)%Z)) (zrange (minI d) (maxI d)).
+Definition nzb (ic : Z * W) : bool := negb (weqb (snd ic) w0).
+(* [contiguous]: which of the two layouts the size comparison picked *)
+Definition dense_blocks (neg : bool) (d : dense) (contiguous : bool) : stream :=
+  if is_empty d then []
+  else if contiguous then [BStore neg (ContiguousCounts (minI d) 1 (map (fun ic => q2f (snd ic)) (dense_cells d)))]
+  else [BStore neg (IndexDeltasAndCounts (sparse_deltas 0 (filter nzb (dense_cells d))))].
+
+Lemma dense_count_fold : forall (l : list (Z * W)) (sz0 : nat) (n0 : N) (p0 : Z),
+  snd (fst (fold_left (fun (acc : nat * N * Z) (ic : Z * W) =>
+                         let '(sz, n, prev) := acc in
+                         if weqb (snd ic) w0 then acc
+                         else ((sz + sv_size (fst ic - prev)%Z + Varfloat.vf_size (q2f (snd ic)))%nat, (n + 1)%N, fst ic))
+                      l (sz0, n0, p0)))
+  = (n0 + N.of_nat (length (filter nzb l)))%N.
+Proof.
+  induction l as [|ic l IH]; intros sz0 n0 p0; cbn [fold_left filter].
+  - cbn [length snd fst]. lia.
+  - unfold nzb at 1. destruct (weqb (snd ic) w0); cbn [negb].
+    + apply IH.
+    + rewrite IH. cbn [length]. lia.
+Qed.
+Lemma dense_enc_fold : forall (l : list (Z * W)) prev out,
+  snd (fold_left (fun (acc : Z * list byte) (ic : Z * W) =>
+                    let '(prev, out) := acc in
+                    if weqb (snd ic) w0 then acc
+                    else (fst ic, out ++ enc_sv (fst ic - prev) ++ enc_w (snd ic))) l (prev, out))
+  = out ++ concat (map (fun dc => enc_sv (fst dc) ++ Varfloat.enc_vf (snd dc)) (sparse_deltas prev (filter nzb l))).
+Proof.
+  induction l as [|ic l IH]; intros prev out; cbn [fold_left filter].
+  - cbn [sparse_deltas map concat snd]. now rewrite app_nil_r.
+  - unfold nzb at 1. destruct (weqb (snd ic) w0); cbn [negb].
+    + apply IH.
+    + rewrite IH. cbn [sparse_deltas map concat fst snd]. unfold enc_w. rewrite <- !app_assoc. reflexivity.
+Qed.
+
+Lemma dense_cells_length d : length (dense_cells d) = Z.to_nat (maxI d - minI d + 1).
+Proof. unfold dense_cells. rewrite map_length. apply zrange_length. Qed.
+
+Theorem enc_dense_grammar d neg : (minI d <= maxI d)%Z ->
+  exists c, enc_dense d (ty_of neg) = serialize (dense_blocks neg d c).
+Proof.
+  intros Hmm. unfold enc_dense, dense_blocks. destruct (is_empty d); [exists true; reflexivity|].
+  cbv zeta. fold (dense_cells d).
+  match goal with |- context [match ?X with pair _ _ => _ end] => destruct X as [[ssz ne] lp] eqn:E end.
+  assert (Hne : ne = N.of_nat (length (filter nzb (dense_cells d)))).
+  { change ne with (snd (fst (ssz, ne, lp))). rewrite <- E. rewrite dense_count_fold. lia. }
+  match goal with |- context [if ?c then _ else _] => destruct c end.
+  - exists true. rewrite serialize_one, ser_block_store. cbn [ser_bins fst snd].
+    rewrite map_length, dense_cells_length, map_map.
+    replace (Z.to_N (maxI d - minI d) + 1)%N with (N.of_nat (Z.to_nat (maxI d - minI d + 1))) by lia.
+    destruct neg; reflexivity.
+  - exists false. rewrite serialize_one, ser_block_store. cbn [ser_bins fst snd].
+    rewrite dense_enc_fold, sparse_deltas_length, Hne. destruct neg; reflexivity.
+Qed.
+
+(* ---- meaning of the two layouts ---- *)
+Fixpoint consec (i0 : Z) (l : list (Z * W)) : Prop :=
+  match l with [] => True | ic :: tl => fst ic = i0 /\ consec (i0 + 1)%Z tl end.
+Lemma consec_map_seq (g : Z -> W) lo : forall n s,
+  consec (lo + Z.of_nat s)%Z (map (fun i => (i, g i)) (map (fun k => (lo + Z.of_nat k)%Z) (seq s n))).
+Proof.
+  induction n as [|n IH]; intros s; cbn [seq map consec]; [exact I|].
+  split; [reflexivity|]. replace (lo + Z.of_nat s + 1)%Z with (lo + Z.of_nat (S s))%Z by lia. apply IH.
+Qed.
+Lemma dense_cells_consec d : consec (minI d) (dense_cells d).
+Proof.
+  unfold dense_cells, zrange.
+  pose proof (consec_map_seq (fun i => at_ (Dense.bins d) (i - offset d)%Z) (minI d)
+                (Z.to_nat (maxI d - minI d + 1)) 0) as H.
+  replace (minI d + Z.of_nat 0)%Z with (minI d) in H by lia. exact H.
+Qed.
+Lemma cc_bins_consec : forall l i0, consec i0 l -> Forall (fun ic => i64 (fst ic)) l -> Forall (fun ic => wexact (snd ic)) l ->
+  cc_bins wire_w i0 1 (map (fun ic => q2f (snd ic)) l) = l.
+Proof.
+  induction l as [|[i w] l IH]; intros i0 Hc Hi Hw; cbn [map cc_bins]; [reflexivity|].
+  destruct Hc as [Hc1 Hc2]. cbn [fst snd] in *. subst i0.
+  inversion Hi as [|x y Hi1 Hil]; subst. inversion Hw as [|x y Hw1 Hwl]; subst. cbn [fst snd] in *.
+  rewrite wexact_wire by exact Hw1. f_equal.
+  destruct l as [|[i' w'] l']; [reflexivity|].
+  assert (Hi' : i64 (i + 1)%Z).
+  { destruct Hc2 as [E _]. cbn [fst] in E. inversion Hil as [|x y H1 _]. cbn [fst] in H1. rewrite <- E. exact H1. }
+  rewrite wrap_i64_id by exact Hi'. apply IH; assumption.
+Qed.
+Lemma bmerge_list_filter : forall l a, bmerge_list a (filter nzb l) = bmerge_list a l.
+Proof.
+  induction l as [|[k w] l IH]; intros a; cbn [filter]; [reflexivity|].
+  unfold nzb at 1. cbn [snd]. rewrite (bmerge_list_cons a k w l).
+  destruct (weqb w w0) eqn:E; cbn [negb].
+  - unfold badd0. rewrite E. apply IH.
+  - rewrite bmerge_list_cons. apply IH.
+Qed.
+
+Definition dense_wire_ok (d : dense) : Prop :=
+  (minI d <= maxI d)%Z /\ idx_ok (minI d) /\ idx_ok (maxI d) /\ Forall (fun ic => wexact (snd ic)) (dense_cells d).
+
+Lemma dense_cells_idx d : idx_ok (minI d) -> idx_ok (maxI d) -> Forall (fun ic => idx_ok (fst ic)) (dense_cells d).
+Proof.
+  intros H1 H2. unfold dense_cells. apply Forall_forall. intros ic Hin.
+  apply in_map_iff in Hin. destruct Hin as [i [<- Hi]]. apply in_zrange in Hi. cbn [fst].
+  unfold idx_ok in *. lia.
+Qed.
+Lemma idx_ok_i64 l : Forall (fun ic : Z * W => idx_ok (fst ic)) l -> Forall (fun ic => i64 (fst ic)) l.
+Proof. apply Forall_impl. intros ic. unfold idx_ok, MinInt32, MaxInt32, i64. lia. Qed.
+Lemma Forall_filter {A} (P : A -> Prop) f (l : list A) : Forall P l -> Forall P (filter f l).
+Proof. intros H. apply Forall_forall. intros x Hx. apply filter_In in Hx. destruct Hx as [Hx _]. rewrite Forall_forall in H. auto. Qed.
+Lemma filter_length_le {A} f (l : list A) : length (filter f l) <= length l.
+Proof. induction l as [|x l IH]; cbn [filter length]; [lia|]. destruct (f x); cbn [length]; lia. Qed.
+
+Lemma dense_len_ok d : idx_ok (minI d) -> idx_ok (maxI d) -> (N.of_nat (length (dense_cells d)) < W64)%N.
+Proof. intros H1 H2. rewrite dense_cells_length. unfold idx_ok, MinInt32, MaxInt32, W64 in *. lia. Qed.
+
+Lemma dense_blocks_wf neg d c : dense_wire_ok d -> wf_stream (dense_blocks neg d c).
+Proof.
+  intros [Hmm [H1 [H2 Hw]]]. unfold dense_blocks. destruct (is_empty d); [constructor|].
+  pose proof (dense_len_ok d H1 H2) as HL. pose proof (dense_cells_idx d H1 H2) as Hidx.
+  destruct c; (constructor; [|constructor]); cbn [wf_block wf_bins].
+  - rewrite map_length. split; [exact HL|]. unfold idx_ok, MinInt32, MaxInt32, i64 in *. lia.
+  - rewrite sparse_deltas_length. split.
+    + pose proof (filter_length_le nzb (dense_cells d)). lia.
+    + apply sparse_deltas_int32; [unfold idx_ok, MinInt32, MaxInt32; lia|]. apply Forall_filter. exact Hidx.
+Qed.
+Lemma deltas_exact : forall l prev, Forall (fun ic => wexact (snd ic)) l -> Forall exact_f (map snd (sparse_deltas prev l)).
+Proof.
+  induction l as [|ic l IH]; intros prev Hw; cbn [sparse_deltas map snd]; [constructor|].
+  inversion Hw as [|x y H1 Hl]; subst. constructor; [apply H1|apply IH; exact Hl].
+Qed.
+Lemma dense_blocks_exact neg d c : dense_wire_ok d -> exact_stream (dense_blocks neg d c).
+Proof.
+  intros [_ [_ [_ Hw]]]. unfold dense_blocks. destruct (is_empty d); [constructor|].
+  destruct c; (constructor; [|constructor]); cbn [block_weights bins_weights].
+  - apply Forall_forall. intros x Hx. apply in_map_iff in Hx. destruct Hx as [ic [<- Hic]].
+    rewrite Forall_forall in Hw. apply (Hw ic Hic).
+  - apply deltas_exact. apply Forall_filter. exact Hw.
+Qed.
+Lemma dense_blocks_bins d c a : dense_wire_ok d -> is_empty d = false ->
+  bmerge_list a (stream_pos_bins (dense_blocks false d c)) = bmerge_list a (dense_cells d)
+  /\ stream_neg_bins (dense_blocks false d c) = [].
+Proof.
+  intros [Hmm [H1 [H2 Hw]]] Hne. unfold dense_blocks. rewrite Hne.
+  pose proof (idx_ok_i64 _ (dense_cells_idx d H1 H2)) as Hi.
+  destruct c; unfold stream_pos_bins, stream_neg_bins; cbn [map concat block_pos_bins block_neg_bins];
+    rewrite app_nil_r, bins_of_block_eq; cbn [bins_of_block_w]; (split; [|reflexivity]).
+  - rewrite cc_bins_consec; [reflexivity|apply dense_cells_consec|exact Hi|exact Hw].
+  - rewrite sparse_deltas_bins; [apply bmerge_list_filter|apply Forall_filter; exact Hi|apply Forall_filter; exact Hw].
+Qed.
+
+(* whichever layout was chosen, the reference decoder reads the cells of the window back *)
+Theorem enc_dense_ref_decode d : dense_wire_ok d -> is_empty d = false ->
+  exists c, ref_decode (enc_dense d ft_positive) = Some c /\ c_pos c = bins_of_list (dense_cells d) /\ c_neg c = [].
+Proof.
+  intros Hok Hne. destruct (enc_dense_grammar d false (proj1 Hok)) as [lay E].
+  eexists. split.
+  - change ft_positive with (ty_of false). rewrite E.
+    apply ref_decode_serialize; [apply dense_blocks_wf; exact Hok|].
+    apply exact_stable_stream, dense_blocks_exact; exact Hok.
+  - destruct (dense_blocks_bins d lay [] Hok Hne) as [H1 H2]. rewrite sem_pos, sem_neg, H2.
+    split; [exact H1|reflexivity].
+Qed.
+Lemma ser_bins_sub_lt64 bb : (fst (ser_bins bb) < 64)%N.
+Proof. destruct bb; reflexivity. Qed.
+(* and so does the implementation's decoder with a sparse receiver *)
+Theorem enc_dense_sparse_decode d m : dense_wire_ok d -> is_empty d = false ->
+  exists f body, enc_dense d ft_positive = f :: body /\ flag_type f = ft_positive
+                 /\ dec_bins (SS m) (flag_sub f) body = DOk (SS (bmerge_list m (dense_cells d))) [].
+Proof.
+  intros Hok Hne. destruct (enc_dense_grammar d false (proj1 Hok)) as [lay E].
+  change ft_positive with (ty_of false). rewrite E.
+  pose proof (dense_blocks_wf false d lay Hok) as Hwf.
+  destruct (dense_blocks_bins d lay m Hok Hne) as [HB _]. rewrite <- HB.
+  unfold dense_blocks in *. rewrite Hne in *.
+  destruct lay; rewrite serialize_one, ser_block_store; inversion Hwf as [|x y Hb _]; subst; cbn [wf_block] in Hb;
+    (eexists; eexists; split; [reflexivity|]; split; [apply flag_type_g; reflexivity|]);
+    (rewrite flag_sub_g; [|reflexivity|apply ser_bins_sub_lt64]);
+    cbn [dec_bins]; rewrite <- (app_nil_r (snd (ser_bins _))); rewrite sparse_dec_bins by exact Hb;
+    unfold stream_pos_bins; cbn [map concat block_pos_bins]; rewrite app_nil_r; reflexivity.
+Qed.
+(* ================================================================== *)
+(* 14. Integer weights below 2^53 cross the wire exactly               *)
+(* ================================================================== *)
+From Coq Require Import Reals.
+From Flocq Require Import Core.Core.
+Close Scope R_scope.
+Close Scope Z_scope.
+Close Scope N_scope.
+Open Scope nat_scope.
+Open Scope list_scope.
+Lemma this_w_of_Z n : this (w_of_Z n) = inject_Z n.
+Proof.
+  unfold w_of_Z, Q2Qc. cbn [this]. unfold Qred, inject_Z. cbn [Qnum Qden].
+  pose proof (Z.ggcd_gcd n 1) as Hg. pose proof (Z.ggcd_correct_divisors n 1) as Hd.
+  destruct (Z.ggcd n 1) as [g [a b]]. cbn [fst snd] in *. rewrite Z.gcd_1_r in Hg. subst g.
+  destruct Hd as [Ha Hb]. assert (Ea : a = n) by lia. assert (Eb : b = 1%Z) by lia. rewrite Ea, Eb. reflexivity.
+Qed.
+Lemma q2f_int n : q2f (w_of_Z n) = f64_of_int n.
+Proof. unfold q2f. rewrite this_w_of_Z. reflexivity. Qed.
+
+Lemma f2q_of_R (x : f64) (n : Z) :
+  Binary.is_finite 53 1024 x = true -> Binary.B2R 53 1024 x = IZR n -> f2q x = w_of_Z n.
+Proof.
+  intros Hfin HR. unfold f2q, w_of_Z. destruct x as [s|s|s pl Hpl|s m e Hb]; try discriminate.
+  - cbn [f2v]. cbn in HR. apply eq_IZR in HR. subst n. reflexivity.
+  - cbn [f2v]. unfold w0. apply Q2Qc_eq_iff.
+    unfold Binary.B2R, Defs.F2R in HR. cbn [Defs.Fnum Defs.Fexp] in HR.
+    set (sm := (if s then Z.neg m else Z.pos m)) in *.
+    assert (Hsm : SpecFloat.cond_Zopp s (Z.pos m) = sm) by (destruct s; reflexivity). rewrite Hsm in HR.
+    destruct e as [|p|p]; cbn [pow2Q].
+    + cbn [Raux.bpow] in HR. rewrite Rmult_1_r in HR. apply eq_IZR in HR. subst n. apply Qmult_1_r.
+    + cbn [Raux.bpow] in HR. rewrite <- mult_IZR in HR. apply eq_IZR in HR. subst n.
+      rewrite inject_Z_mult. reflexivity.
+    + cbn [Raux.bpow] in HR.
+      assert (Hp : (0 < Z.pow_pos Zaux.radix2 p)%Z) by (apply Zaux.Zpower_pos_gt_0; reflexivity).
+      assert (HR' : IZR sm = (IZR n * IZR (Z.pow_pos Zaux.radix2 p))%R).
+      { rewrite <- HR. field. apply not_0_IZR. lia. }
+      rewrite <- mult_IZR in HR'. apply eq_IZR in HR'.
+      unfold Qeq, Qmult, inject_Z. cbn [Qnum Qden].
+      change (Z.pow_pos Zaux.radix2 p) with (2 ^ Z.pos p)%Z in HR'.
+      rewrite Pos.mul_1_l, Pos2Z.inj_pow, !Z.mul_1_r. change (Z.pos 2) with 2%Z. exact HR'.
+Qed.
+
+Theorem wexact_int n : (0 <= n < 9007199254740992)%Z -> wexact (w_of_Z n).
+Proof.
+  intros Hn. destruct (f64_of_int_spec n Hn) as (HFin & HS & HR). unfold wexact. rewrite q2f_int. split.
+  - exact (varfloat_exact_int (f64_of_int n) n Hn HFin HS HR).
+  - apply f2q_of_R; assumption.
+Qed.
+Corollary wexact_nat k : (Z.of_nat k < 9007199254740992)%Z -> wexact (w_of_nat k).
+Proof. intros H. apply wexact_int. lia. Qed.
+(* ================================================================== *)
+(* 15. On ALL byte strings the generic decoder of store.go (sparse receiver) is the reference
+       parser followed by the merge of the parsed bins: same acceptance, same remaining bytes,
+       same content; the only failure is io.EOF                         *)
+(* ================================================================== *)
+Lemma idc_agree : forall fuel n b idx m,
+  dec_idc_loop fuel n idx (SS m) b =
+  match parse_idc fuel n b [] with
+  | Some (l, r) => DOk (SS (bmerge_list m (idc_bins f2q idx l))) r
+  | None => DErr EEof
+  end.
+Proof.
+  induction fuel as [|f IH]; intros n b idx m; rewrite dec_idc_loop_eq;
+    destruct (N.eqb_spec n 0) as [->|Hn]; try (rewrite parse_idc_0; reflexivity).
+  - rewrite parse_idc_O by exact Hn. reflexivity.
+  - rewrite parse_idc_S by exact Hn. destruct (dec_sv b) as [d b1| |]; try reflexivity.
+    unfold dec_count. destruct (Varfloat.dec_vf b1) as [c b2| |]; try reflexivity.
+    cbn [st_addw]. rewrite IH. destruct (parse_idc f (n - 1)%N b2 []) as [[l r]|]; reflexivity.
+Qed.
+Lemma id_agree : forall fuel n b idx m,
+  dec_id_loop fuel n idx (SS m) b =
+  match parse_id fuel n b [] with
+  | Some (l, r) => DOk (SS (bmerge_list m (id_bins idx l))) r
+  | None => DErr EEof
+  end.
+Proof.
+  induction fuel as [|f IH]; intros n b idx m; rewrite dec_id_loop_eq;
+    destruct (N.eqb_spec n 0) as [->|Hn]; try (rewrite parse_id_0; reflexivity).
+  - rewrite parse_id_O by exact Hn. reflexivity.
+  - rewrite parse_id_S by exact Hn. destruct (dec_sv b) as [d b1| |]; try reflexivity.
+    cbn [st_add]. rewrite IH. destruct (parse_id f (n - 1)%N b1 []) as [[l r]|]; reflexivity.
+Qed.
+Lemma cc_agree : forall fuel n b idx stride m,
+  dec_cc_loop fuel n idx stride (SS m) b =
+  match parse_cc fuel n b [] with
+  | Some (l, r) => DOk (SS (bmerge_list m (cc_bins f2q idx stride l))) r
+  | None => DErr EEof
+  end.
+Proof.
+  induction fuel as [|f IH]; intros n b idx stride m; rewrite dec_cc_loop_eq;
+    destruct (N.eqb_spec n 0) as [->|Hn]; try (rewrite parse_cc_0; reflexivity).
+  - rewrite parse_cc_O by exact Hn. reflexivity.
+  - rewrite parse_cc_S by exact Hn.
+    unfold dec_count. destruct (Varfloat.dec_vf b) as [c b1| |]; try reflexivity.
+    cbn [st_addw]. rewrite IH. destruct (parse_cc f (n - 1)%N b1 []) as [[l r]|]; reflexivity.
+Qed.
+
+Theorem sparse_dec_bins_agrees m sub b : sub = SUB_BINS_IDC \/ sub = SUB_BINS_ID \/ sub = SUB_BINS_CC ->
+  dec_bins_generic (SS m) (sub * 4)%N b =
+  match parse_bins sub b with
+  | Some (bb, r) => DOk (SS (bmerge_list m (bins_of_block_w f2q bb))) r
+  | None => DErr EEof
+  end.
+Proof.
+  intros [ -> | [ -> | -> ] ]; unfold dec_bins_generic, parse_bins.
+  - change (SUB_BINS_IDC * 4 =? sub_idx_deltas_counts)%N with true.
+    change (SUB_BINS_IDC =? SUB_BINS_IDC)%N with true. cbv iota.
+    destruct (dec_uv b) as [n b1| |]; try reflexivity. rewrite idc_agree.
+    destruct (parse_idc (S (length b1)) n b1 []) as [[l r]|]; reflexivity.
+  - change (SUB_BINS_ID * 4 =? sub_idx_deltas_counts)%N with false.
+    change (SUB_BINS_ID * 4 =? sub_idx_deltas)%N with true.
+    change (SUB_BINS_ID =? SUB_BINS_IDC)%N with false. change (SUB_BINS_ID =? SUB_BINS_ID)%N with true. cbv iota.
+    destruct (dec_uv b) as [n b1| |]; try reflexivity. rewrite id_agree.
+    destruct (parse_id (S (length b1)) n b1 []) as [[l r]|]; reflexivity.
+  - change (SUB_BINS_CC * 4 =? sub_idx_deltas_counts)%N with false.
+    change (SUB_BINS_CC * 4 =? sub_idx_deltas)%N with false.
+    change (SUB_BINS_CC * 4 =? sub_contiguous)%N with true.
+    change (SUB_BINS_CC =? SUB_BINS_IDC)%N with false. change (SUB_BINS_CC =? SUB_BINS_ID)%N with false.
+    change (SUB_BINS_CC =? SUB_BINS_CC)%N with true. cbv iota.
+    destruct (dec_uv b) as [n b1| |]; try reflexivity.
+    destruct (dec_sv b1) as [i b2| |]; try reflexivity.
+    destruct (dec_sv b2) as [dl b3| |]; try reflexivity. rewrite cc_agree.
+    destruct (parse_cc (S (length b3)) n b3 []) as [[l r]|]; reflexivity.
+Qed.
+
+(* G2 in one statement *)
+Theorem sem_app_all a b :
+  c_pos (sem (a ++ b)) = bmerge_list (c_pos (sem a)) (stream_pos_bins b) /\
+  c_neg (sem (a ++ b)) = bmerge_list (c_neg (sem a)) (stream_neg_bins b) /\
+  c_zero (sem (a ++ b)) = fold_left wadd (stream_zero b) (c_zero (sem a)) /\
+  c_map (sem (a ++ b)) = last_mapping (c_map (sem a)) b.
+Proof. repeat split; [apply sem_app_pos|apply sem_app_neg|apply sem_app_zero|apply sem_app_map]. Qed.
